@@ -30,6 +30,36 @@ CHECKS = {
             "Trusted: TLC, Strings.tla reference distance, harness encoders. hash engine traces restricted to a 6-letter sub-alphabet "
             "(edit ball enumerable in TLC). Bounded exhaustive part: see evidence tlc_runs constants.",
             "TLA+ model checking (TLC) + spec-to-code replay of behaviours/histories + trace validation"),
+    "C04": ("DESIGN.md 4/C04",
+            "NNSearch.tla models hash_based (HbBuild, breadth-first edit ball with first-seen level, dictionary probe) and kdtree "
+            "(composition vectors with compression bins, ball of squared radius 2k^2, exact filter); TLC checks Exact, NoRepeat, NoSelf, "
+            "Symmetric, CompositionLemma, BallExact, DenseExact for all lists over 3-letter sub-alphabets straddling the bins; every terminal "
+            "behaviour is replayed on hash_based/kdtree; recorded sessions on random repertoires and radius-boundary pairs x^k/y^k "
+            "(where the float radius sqrt(2)k could round down) are validated by TraceNN.tla.",
+            "Trusted: TLC, Strings.tla. The float radius is outside the model: covered by boundary sessions k<=20 only.",
+            "TLA+ model checking (TLC) + spec-to-code replay + trace validation"),
+    "C07": ("DESIGN.md 4/C07",
+            "NNSearch.tla in Hamming mode (HamInf = infinity for unequal lengths; kdtree per-length buckets keep original positions) "
+            "is model-checked for all small lists with every interleaving of lengths and all three engines plus the two-collection "
+            "forms; every terminal behaviour is replayed on the real functions; mixed-length repertoires validated by TraceNN.tla; the "
+            "as-found model (bucket-local positions) must be rejected by TLC.",
+            "Trusted: TLC, Strings.tla.",
+            "TLA+ model checking (TLC) + spec-to-code replay + trace validation"),
+    "C10": ("DESIGN.md 4/C10",
+            "MakeOutput of NNSearch.tla models COO accumulation as a sum (invariant DenseExact); InputCheck.tla models the argument "
+            "guard sequence (invariant RejectedIffInvalid, action property ErrorIsFinal). Every terminal behaviour of small NNSearch models "
+            "is executed under 7 container kinds x 3 output types, every argument-class vector of InputCheck on the four public search "
+            "functions; recorded sessions with random container/output variants validated by TraceNN.tla.",
+            "Trusted: TLC; 'rejected' = any exception. Argument classes not named by the property are not judged.",
+            "TLA+ model checking (TLC) + spec-to-code replay over container/output variants + trace validation"),
+    "C14": ("DESIGN.md 4/C14",
+            "NNSearch.tla in custom-distance mode (six distance families in exact quarters, both radii) is model-checked for the three "
+            "engines and the two-collection forms; TcrNN.tla models nearest_neighbor_tcrdist as EditCandidates/LookupV/Cdr3Dist/SumFilter "
+            "(invariants ResultExact, ResultSymmetric, OnlyRadii). Behaviours are replayed on the real engines; nearest_neighbor_tcrdist "
+            "sessions (tables over bundled V alleles, chains, trimming options, shifted index) and the two bundled V tables are validated "
+            "by TraceTcr.tla with V distances and CDR3 distances supplied independently by the harness.",
+            "Trusted: TLC; the vendored pwseqdist stand-in (harness/standins) replaces the absent optional dependency.",
+            "TLA+ model checking (TLC) + spec-to-code replay + trace validation"),
 }
 
 NOT_YET = {
